@@ -30,7 +30,7 @@ FUEL = 3000000
 # requests that are malformed at the protocol level: they must end in an error reply or a closed connection
 MALFORMED = ("wrong_version", "unknown_type", "unknown_type_payload", "len_over_max", "len_huge", "len_zero", "non_module",
              "garbage", "trunc_half_shutwr")
-_VLOCK = threading.Lock()
+_VLOCK = threading.RLock()
 
 
 def _violation(ctx, key, what, files=None):
